@@ -105,6 +105,18 @@ def run(chk, repo, tier):
             if base in mask_a:
                 if keys not in ([s], [n, s]):
                     bad.append(f'{fmt(Poly.atom(a))} is not mask[n][s] / mask[s]')
+        # an attribute used whole (not sliced) is only legitimate when the path established that it is a scalar
+        scalar_ok = set()
+        for c, pol, _ in e.data.get('path_conds', []):
+            ca = c.single_atom() if isinstance(c, Poly) else None
+            if ca is not None and is_app(ca, 'eq') and pol and C(1) in ca[2]:
+                for x in ca[2]:
+                    xa = x.single_atom() if isinstance(x, Poly) else None
+                    if xa is not None and xa[0] == 'attr' and xa[2] == 'size':
+                        scalar_ok.add(xa[1])
+        for a in (data.atoms(deep=True) if isinstance(data, Poly) else []):
+            if a in amp_a | opd_a and a not in inner and a not in scalar_ok:
+                bad.append(f'{fmt(Poly.atom(a))} is used whole although the segment works on the slice {fmt(s)}')
         chk.ob('C03-d', 'D-index', f.key, f'amplitude, mask and OPD use the segment slice [{_variant(data, amp_a, opd_a)}]',
                not bad and n is not None and shape_ok, '; '.join(bad) or f'slice {fmt(s)}', f.loc(e.node))
         ta = tilt.single_atom() if isinstance(tilt, Poly) else None
